@@ -682,6 +682,9 @@ func runCheck(repo, verifDir string, opts CheckOpts, overlay map[string][]byte, 
 		corpus = runCorpus(repo, verifDir, prop)
 		fmt.Printf("%s: must-fail corpus: %v seeded changes, %v detected, %v outside the claimed scope, %v not applicable to this tree, missed: %v\n",
 			prop, corpus["total"], corpus["detected"], corpus["out_of_scope"], corpus["skipped"], corpus["missed"])
+		pass := runPassCorpus(repo, verifDir, prop)
+		corpus["behaviour_preserving_rewrites"] = pass
+		fmt.Printf("%s: must-pass corpus: %v behaviour-preserving rewrites, %v without alarm, false alarms: %v\n", prop, pass["total"], pass["no_alarm"], pass["false_alarms"])
 		wall = time.Since(t0).Seconds()
 	}
 	if writeEvidence {
